@@ -28,6 +28,10 @@ def run(c):
         "the two hypotheses of C13_authenticates_iff_spec on x509 (pools are sets; an empty root pool verifies nothing) are "
         "observed on the generated chains, not proved",
         "tls.ConnectionState.ServerName is the MX host name and a completed handshake has at least one peer certificate (crypto/tls)",
+        "TLSA.Verify does not read the owner name of the record (hypothesis OwnerBlind of C13_owner_relabel_invariant; the match tables "
+        "shipped per record are computed from the association data alone)",
+        "resolver ops: the miekg/dns client and wire format are primitives (Transport parameter of the model; the tree's is plain UDP without "
+        "TCP fall-back); which configured address is a loopback address is known by construction (127.0.0.1, 127.0.0.2: yes; 0.0.0.0: no)",
     ]
     return c.finish(
         rule="verifyDANE: every multiset of size 0-1 over the property's record types (usage 0-4 x selector 0-2 x matching type 0-3 x data for "
@@ -35,7 +39,11 @@ def run(c):
         "handshake yes/no; thorough adds every multiset of size 2 on the 5 stated chains; plus seeded samples of sizes 0-6 with wider parameter "
         "values and data derived under other parameters. CheckConn: every discovery-error kind x TLS state, seeded record sets. discoverTLSA and "
         "PrepareConn+CheckConn: every shape of signed/unsigned/failing/absent zones for the MX name, an alias and the two TLSA RRsets, served by a "
-        "DNS server on loopback. Each op runs the real function and the Lean model (primitive results shipped as tables); distinct = distinct op lines",
+        "DNS server on loopback. Owner names of the records: the usual one, CNAME'd RRsets and odd names (12), every usable record type under each "
+        "on all chains, among them leaves issued for another name that chain to the matched anchor. ExtResolver (res) and PrepareConn+CheckConn "
+        "through it (rconn): scripted servers on UDP+TCP behind a loopback and a non-loopback address, server lists of 0-2 entries, honest / "
+        "AD-forging / non-validating / failing servers, truncated UDP answers with a differing TCP follow-up, every zone shape behind the "
+        "non-loopback address. Each op runs the real function and the Lean model (primitive results shipped as tables); distinct = distinct op lines",
         explanation="theorems for all record lists, chains and primitive behaviours; model tied to dane.go/security.go by differential runs; "
         "monitor evaluates the property from ground truth known by construction",
         search=search,
